@@ -128,12 +128,32 @@ def norm(node: ast.AST | str) -> str:
     return ' '.join(ast.unparse(node).split())
 
 
+EXECUTED: set[str] = set()  # qualnames of repo functions executed abstractly (paths) or interpreted (minieval / modelinterp)
+ANCHORED: set[str] = set()  # qualnames a rule asked for by name (Project.func): the rule's anchors
+CONSULTED: set[str] = set()  # qualnames of repo functions a rule looked up by name, executed abstractly or interpreted (not: merely scanned)
+
+
+class _FuncTable(dict):
+    """p.functions: lookups by name are recorded (iteration is a scan and is not)."""
+
+    def __getitem__(self, k):
+        v = dict.__getitem__(self, k)
+        CONSULTED.add(k)
+        return v
+
+    def get(self, k, default=None):
+        if dict.__contains__(self, k):
+            CONSULTED.add(k)
+            return dict.__getitem__(self, k)
+        return default
+
+
 class Project:
     def __init__(self, root: Path | None = None, package: str = 'tatsu'):
         self.root = Path(root) if root else repo_root()
         self.package = package
         self.modules: dict[str, Module] = {}
-        self.functions: dict[str, FuncInfo] = {}
+        self.functions: dict[str, FuncInfo] = _FuncTable()
         self.classes: dict[str, ClassInfo] = {}
         self._load()
         self._index()
@@ -226,6 +246,7 @@ class Project:
 
     def _register_func(self, fi: FuncInfo) -> None:
         self.functions[fi.qualname] = fi
+        fi.node._qualname = fi.qualname  # type: ignore[attr-defined]  (lets the small evaluator say which function it ran)
         for sub in _direct_defs(fi.node):
             if isinstance(sub, (ast.FunctionDef, ast.AsyncFunctionDef)):
                 child = FuncInfo(f'{fi.qualname}.{sub.name}', fi.module, sub, fi.cls, parent=fi)
@@ -325,6 +346,7 @@ class Project:
 
     # ---------------------------------------------------------------- lookups
     def func(self, qualname: str) -> FuncInfo:
+        ANCHORED.add(qualname)
         try:
             return self.functions[qualname]
         except KeyError:
